@@ -159,7 +159,7 @@ func checkC10(c *Check) {
 	unkRets := byClass(resUnknown)
 	nonRev := byClass(resNonRevokable)
 	c.floor("scan OK returns", 1, len(okRets))
-	c.floor("scan Revoked returns", 2, len(distinctNodes(revRets)))
+	c.floor("scan Revoked returns", 1, len(distinctNodes(revRets)))
 	c.add("O-C10.3", "scan verdict classes", "the scan produces only OK and Revoked verdicts (Unknown comes from errors)", len(unkRets) == 0 && len(nonRev) == 0, posOf(pg, append(unkRets, nonRev...)))
 	var unclassified []*PState
 	for _, s := range pg.Returns() {
@@ -216,12 +216,28 @@ func checkC10(c *Check) {
 	c.onlyAfterExhaustion(pg, "O-C10.3", "no OK verdict inside the scan", "an OK verdict", E, okRets)
 	c.mustPass(pg, "O-C10.3", "OK only after all entries", "an OK verdict", okRets, RangeDone(E))
 
-	// O-C10.4 Revoked inside the loop: permanent reason, not exempt
+	// O-C10.4 Revoked inside the loop: permanent reason, not exempt. The scan is left for a Revoked
+	// verdict either by a return from inside the loop or by a break (with a flag that the single exit
+	// after the loop turns into the verdict): brk matches those breaks.
+	scanLoops := map[int]bool{}
+	for _, s := range pg.States {
+		for _, e := range s.Out {
+			for _, l := range e.Labels {
+				if l.Kind == "rangenext" && l.Key == E && l.Node != nil {
+					scanLoops[l.Node.LoopID] = true
+				}
+			}
+		}
+	}
+	brk := LP{Desc: "leave the scan by break", F: func(l Label) bool {
+		return l.Kind == "note" && l.Key == "break" && l.Node != nil && l.Node.LoopID != 0 && scanLoops[l.Node.LoopID]
+	}}
+	brkSrc := edgeSources(pg, brk)
 	inLoopRev := func() []*PState {
 		var out []*PState
 		body := edgeTargets(pg, RangeNext(E))
 		for _, r := range revRets {
-			if _, found := c.search(pg, body, inSet([]*PState{r}), blockedBy(RangeDone(E))); found {
+			if _, found := c.search(pg, body, inSet([]*PState{r}), blockedBy(AnyOf(RangeDone(E), brk))); found {
 				out = append(out, r)
 			}
 		}
@@ -239,8 +255,30 @@ func checkC10(c *Check) {
 			postRev = append(postRev, r)
 		}
 	}
-	c.floor("in-scan Revoked returns", 1, len(inLoopRev))
+	c.floor("in-scan Revoked returns (or breaks out of the scan)", 1, len(inLoopRev)+len(brkSrc))
 	c.floor("post-scan Revoked returns", 1, len(postRev))
+	if len(brkSrc) > 0 {
+		// the same four conditions for leaving the scan by break, and nothing but Revoked afterwards
+		for _, lp := range []struct {
+			n  string
+			lp LP
+		}{{"serial matches", match}, {"reason is not certificateHold", A("-Eq(6, " + ent + ".ReasonCode)")}, {"reason is not removeFromCRL", A("-Eq(8, " + ent + ".ReasonCode)")}, {"entry is not exempt", notExempt}} {
+			src := edgeTargets(pg, RangeNext(E))
+			path, found := c.search(pg, src, inSet(brkSrc), blockedBy(AnyOf(lp.lp, RangeNext(E))))
+			det := []string{}
+			if found {
+				det = append([]string{"path within one iteration:"}, pg.describePath(path, 30)...)
+			}
+			c.add("O-C10.4", "scan left by break: "+lp.n, "the scan is left by break only for a matching, permanent, non-exempt entry ("+lp.n+")", !found, posOf(pg, brkSrc), det...)
+		}
+		var notRev []*PState
+		for _, r := range pg.Returns() {
+			if cl, ok := resultClass(r.Ret[0].T); !ok || cl != resRevoked || !retNilErr(r, 1) {
+				notRev = append(notRev, r)
+			}
+		}
+		c.noPathFrom(pg, "O-C10.4", "scan left by break: verdict is Revoked", "once the scan was left by break the only verdict is Revoked", brk, notRev, nil)
+	}
 	for _, lp := range []struct {
 		n  string
 		lp LP
@@ -269,7 +307,7 @@ func checkC10(c *Check) {
 			s := queue[0]
 			queue = queue[1:]
 			for _, e := range s.Out {
-				if e.has(RangeDone(E).F) || e.has(RangeNext(E).F) || inBody[e.To] {
+				if e.has(RangeDone(E).F) || e.has(RangeNext(E).F) || e.has(brk.F) || inBody[e.To] {
 					continue
 				}
 				inBody[e.To] = true
@@ -391,8 +429,8 @@ func checkC10(c *Check) {
 		// a temporary matching non-exempt entry is either remembered or not later than the remembered one
 		c.perIteration(pg, "O-C10.4", "temporary entry remembered or older", "a matching temporary entry is remembered unless the remembered one is not older", E, AnyOf(noMatch, A("+TLt("+timeP+", "+inv+")"), isAssign, A("-TLt("+oldEnt+".RevocationTime, "+ent+".RevocationTime)")))
 		// final verdicts
-		c.mustPass(pg, "O-C10.4", "post-scan Revoked: after all entries", "the Revoked verdict after the scan", postRev, RangeDone(E))
-		c.mustPass(pg, "O-C10.4", "post-scan Revoked: something remembered", "the Revoked verdict after the scan", postRev, isAssign)
+		c.mustPass(pg, "O-C10.4", "post-scan Revoked: after all entries", "the Revoked verdict after the scan", postRev, AnyOf(RangeDone(E), brk))
+		c.mustPass(pg, "O-C10.4", "post-scan Revoked: something remembered", "the Revoked verdict after the scan", postRev, AnyOf(isAssign, brk))
 		if remembered != ent {
 			// scalar form: the reason was tested when the entry was remembered and lives on in the hold flag
 			if holdFlag == "" {
@@ -415,7 +453,7 @@ func checkC10(c *Check) {
 			}
 			return
 		}
-		c.mustPass(pg, "O-C10.4", "post-scan Revoked: remembered reason is certificateHold", "the Revoked verdict after the scan", postRev, A("+Eq(6, "+oldEnt+".ReasonCode)"))
+		c.mustPass(pg, "O-C10.4", "post-scan Revoked: remembered reason is certificateHold", "the Revoked verdict after the scan", postRev, AnyOf(A("+Eq(6, "+oldEnt+".ReasonCode)"), brk))
 		c.noPathFrom(pg, "O-C10.4", "OK after a remembered entry only if it is not a hold", "after an entry was remembered the scan ends OK only if the remembered reason is not certificateHold", isAssign, okRets, ptr(AnyOf(A("-Eq(6, "+oldEnt+".ReasonCode)"), A("+IsNil("+oldEnt+")"))))
 	}
 
